@@ -4,7 +4,7 @@
    sumsq = squared l2 norm, lsum = sum of the entries (Model/Prox.v, instantiated at R). *)
 From Coq Require Import List Reals QArith Bool.
 From TLV Require Import Base.Ops Model.Prox Proofs.ProxProofs Proofs.ProxProofsHard Proofs.ProxProofsRefute
-  Proofs.ProxProofsSimplex Proofs.ProxProofsMono.
+  Proofs.ProxProofsSimplex Proofs.ProxProofsMono Proofs.ProxProofsIso.
 Import ListNotations.
 Open Scope R_scope.
 
@@ -110,12 +110,10 @@ Theorem C12_simplex_firmly_nonexpansive : forall p u v, 0 < p -> u <> [] -> leng
 Proof. exact simplex_firmly_nonexpansive. Qed.
 Print Assumptions C12_simplex_firmly_nonexpansive.
 
-(* ---- monotone regression (maximum of running means + backward minimum pass): the output is ordered for EVERY input;
-   a vector accepted by the KKT certificate iso_cert (x ordered, residual r = v - x with sum r = 0, all suffix sums of r <= 0,
-   <r, x> = 0) is the least-squares non-decreasing fit, so the coded operator is optimal on every input on which its output
-   passes the certificate (decided exactly in Q on every case of the correspondence).
-   NOT proved (out of reach in this round): forall v, iso_cert Rops v (monotone_inc Rops v) = true, i.e. unconditional
-   optimality of min_{l>=k} max_{i<=l} mean(v[i..l]). *)
+(* ---- monotone regression (maximum of running means + backward minimum pass, as coded): for EVERY input the output is
+   ordered, passes the KKT certificate iso_cert (x ordered, residual r = v - x with sum r = 0, all suffix sums of r <= 0,
+   <r, x> = 0), and is therefore the least-squares non-decreasing (decreasing=True: non-increasing) fit; idempotent and
+   firmly non-expansive.  (Proof: block structure of min_{l>=k} max_{i<=l} mean(v[i..l]), strong induction on the length.) *)
 Theorem C12_monotone_feasible : forall v,
   ndec (monotonicity_prox Rops false v) /\ ndec (rev (monotonicity_prox Rops true v)) /\ 
   length (monotonicity_prox Rops false v) = length v /\ length (monotonicity_prox Rops true v) = length v.
@@ -125,10 +123,26 @@ Theorem C12_iso_cert_sound : forall v x, iso_cert Rops v x = true ->
   ndec x /\ forall z, length z = length v -> ndec z -> dist2 Rops x v <= dist2 Rops z v.
 Proof. exact iso_cert_sound. Qed.
 Print Assumptions C12_iso_cert_sound.
-Theorem C12_monotone_optimal_partial : forall v, iso_cert Rops v (monotonicity_prox Rops false v) = true ->
-  forall z, length z = length v -> ndec z -> dist2 Rops (monotonicity_prox Rops false v) v <= dist2 Rops z v.
-Proof. exact monotone_optimal_partial. Qed.
-Print Assumptions C12_monotone_optimal_partial.
+Theorem C12_monotone_cert : forall v, iso_cert Rops v (monotonicity_prox Rops false v) = true.
+Proof. exact monotone_inc_cert. Qed.
+Print Assumptions C12_monotone_cert.
+Theorem C12_monotone_optimal : forall v z, length z = length v -> ndec z ->
+  dist2 Rops (monotonicity_prox Rops false v) v <= dist2 Rops z v.
+Proof. exact monotone_inc_optimal. Qed.
+Print Assumptions C12_monotone_optimal.
+Theorem C12_monotone_dec_optimal : forall v z, length z = length v -> ndec (rev z) ->
+  dist2 Rops (monotonicity_prox Rops true v) v <= dist2 Rops z v.
+Proof. exact monotone_dec_optimal. Qed.
+Print Assumptions C12_monotone_dec_optimal.
+Theorem C12_monotone_idempotent : forall d v,
+  monotonicity_prox Rops d (monotonicity_prox Rops d v) = monotonicity_prox Rops d v.
+Proof. exact monotone_idempotent. Qed.
+Print Assumptions C12_monotone_idempotent.
+Theorem C12_monotone_firmly_nonexpansive : forall u v, length u = length v ->
+  dist2 Rops (monotonicity_prox Rops false u) (monotonicity_prox Rops false v)
+  <= dotd (monotonicity_prox Rops false u) (monotonicity_prox Rops false v) u v.
+Proof. exact monotone_inc_firmly_nonexpansive. Qed.
+Print Assumptions C12_monotone_firmly_nonexpansive.
 
 (* ---- normalised sparsity: at most k non-zeros and unit l2 norm whenever the kept part is non-zero
    (s = tl.norm(hard part), contract s*s = sum of squares) *)
